@@ -317,6 +317,19 @@ func (g *gen) pptOpts(s int, o *Val, p float64) {
 	g.tag("payload-passthru")
 }
 
+// testamentPPT: a testament is published by the realm's meta session with the
+// options the client stored, which may use payload passthru mode.
+func (g *gen) testamentPPT(o *Val, p float64) {
+	if !g.chance(p) {
+		return
+	}
+	o.D = append(o.D, KV{"ppt_scheme", []Val{Str("x_custom"), Str("mqtt"), Str(""), Int('l', 5)}[g.r.IntN(4)]})
+	if g.chance(0.5) {
+		o.D = append(o.D, KV{"ppt_serializer", []Val{Str("json"), Bytes("cbor")}[g.r.IntN(2)]})
+	}
+	g.tag("testament-passthru")
+}
+
 func (g *gen) opPublish() {
 	s, ok := g.anySess()
 	if !ok {
@@ -724,6 +737,7 @@ func (g *gen) opMeta() {
 		if g.chance(0.3) {
 			opts.D = append(opts.D, KV{"exclude_me", Bool(false)})
 		}
+		g.testamentPPT(&opts, 0.12)
 		k := Dict(KV{"publish_options", opts})
 		if g.chance(0.4) {
 			k.D = append(k.D, KV{"scope", Str(g.pick([]string{"detached", "destroyed", "", "bogus"}))})
@@ -864,7 +878,9 @@ func (g *gen) tplTestaments() {
 	}
 	s := g.alive[1+g.r.IntN(len(g.alive)-1)]
 	for i, scope := range []string{"detached", "destroyed", g.pick([]string{"detached", "destroyed", ""})} {
-		kw := Dict(KV{"publish_options", Dict()})
+		topts := Dict()
+		g.testamentPPT(&topts, 0.25)
+		kw := Dict(KV{"publish_options", topts})
 		if scope != "" {
 			kw.D = append(kw.D, KV{"scope", Str(scope)})
 		}
